@@ -37,7 +37,6 @@ INDEX = "clematis.memory.index:InMemoryIndex"
 # atom prefix -> one-line reason (frozen; confirmed by reading)
 EXEMPT_T2 = {
     "cfg:t2.reader_batch": "block size of a streaming scan; scores are sorted afterwards",
-    "cfg:perf.metrics": "metrics gate: adds diagnostics only",
     "cfg:t2.cache": "cache selection itself",
     "cfg:perf.t2.cache": "cache selection itself",
     "cfg:t2.lancedb": "backend construction parameters of the index object; the index instance is keyed (uid + version)",
@@ -66,6 +65,48 @@ def _covered(atom: str, key_atoms: Set[str]) -> bool:
     return False
 
 
+def _whole_key_atoms(ctx, pe, fn: Func, key_expr: ast.AST, at) -> Set[str]:
+    """inputs the key takes in WHOLE: the access paths of the entries of the key themselves (tuple elements, dict-literal
+    values, values stored under a subscript of the key's payload), as opposed to the leaves reached by traversing them.
+    PathEval.atoms keeps only maximal paths (a section that is merely traversed must not count as covered), which drops a
+    section the key holds whole as soon as another key entry reads one of its leaves."""
+    from ..paths import fmt
+    rd = ctx.rd(fn)
+    sl = rd.slice([key_expr], at)
+    ents = []
+
+    def expand(e, n):
+        if isinstance(e, (ast.Tuple, ast.List, ast.Set)):
+            for v in e.elts:
+                expand(v, n)
+        elif isinstance(e, ast.Dict):
+            for v in e.values:
+                if v is not None:
+                    expand(v, n)
+        else:
+            ents.append((e, n))
+
+    for ex, n in sl.exprs:
+        a = n.ast
+        bound_to_name = isinstance(a, (ast.Assign, ast.AnnAssign, ast.AugAssign, ast.NamedExpr)) and getattr(a, "value", None) is ex \
+            and all(isinstance(t, ast.Name) for t in (a.targets if isinstance(a, ast.Assign) else [a.target]))
+        if ex is key_expr or (bound_to_name and isinstance(ex, (ast.Tuple, ast.List, ast.Set, ast.Dict))) or (not bound_to_name and isinstance(ex, ast.Tuple) and isinstance(a, (ast.Assign, ast.AugAssign))):
+            # the key itself, a container literal the key is built from, or (key, value) of a store under a subscript of it
+            expand(ex, n)
+    out: Set[str] = set()
+    for e, n in ents:
+        if isinstance(e, ast.Constant):
+            continue
+        try:
+            ps = pe.paths(fn, e, n)
+        except Exception:
+            continue
+        for p_ in ps:
+            if p_[0] in ("cfg", "ctx", "state", "env") and p_[1]:
+                out.add(fmt(p_))
+    return out
+
+
 def _whole(atom: str) -> str:
     """the input an atom is about, without trailing slice markers"""
     while atom.endswith(".[:]"):
@@ -89,13 +130,14 @@ def rule_key_t2(ctx) -> Set[str]:
     ctx.check(all(src(c.args[0]) == src(gets[0][1].args[0]) for _, c in puts), "C05.KEY", f"{fn.qual}/same-key-get-put", fn.loc(puts[0][1]),
               "lookup and store use the same key expression", "the cache is read and written under different keys")
     n, c = gets[0]
-    key_atoms = {a for a in pe.atoms(fn, c.args[0], n, control=False) if not _junk(a)}
+    leaf_atoms = {a for a in pe.atoms(fn, c.args[0], n, control=False) if not _junk(a)}
+    key_atoms = leaf_atoms | {a for a in _whole_key_atoms(ctx, pe, fn, c.args[0], n) if not _junk(a)}
     res = [m for m in cfg.nodes if m.kind == "stmt" and isinstance(m.ast, ast.Assign) and isinstance(m.ast.value, ast.Call) and call_tail(m.ast.value) == "T2Result"]
     if not res:
         raise AnalysisError("anchor-vanished: T2Result construction")
     val_atoms: Set[str] = set()
     for kw in res[0].ast.value.keywords:
-        if kw.arg in ("retrieved", "graph_deltas_residual"):
+        if kw.arg in ("retrieved", "graph_deltas_residual", "metrics"):
             # a slice on the VALUE side (the clock parser looks at s[-1:]) still means "depends on that input": only on the
             # key side does `.[:]` say that a part of the input is all the key sees
             val_atoms |= {_whole(a) for a in pe.atoms(fn, kw.value, res[0], control=True) if not _junk(a)}
@@ -115,7 +157,7 @@ def rule_key_t2(ctx) -> Set[str]:
             continue
         ctx.violation("C05.KEY", key, fn.loc(c), f"the cached T2 result depends on `{a}` but the stage-cache key does not: after that input changes a hit returns the result computed under the old value")
     ctx.holds("C05.KEY", "T2/covered-atoms", fn.loc(c), f"{n_cov} of {len(val_atoms)} input atoms of the cached value are in the key's dependency set ({len(key_atoms)} key atoms)")
-    return key_atoms
+    return leaf_atoms
 
 
 def rule_key_turn(ctx, t2_key_atoms: Set[str]) -> None:
@@ -130,6 +172,7 @@ def rule_key_turn(ctx, t2_key_atoms: Set[str]) -> None:
     ctx.check(src(c.args[1]) == src(sets[0][1].args[1]) and src(c.args[0]) == src(sets[0][1].args[0]), "C05.KEY", f"{fn.qual}/same-key-get-set", fn.loc(c),
               "lookup and store use the same (namespace, key)", "the turn-level cache is read and written under different keys")
     key_atoms = {a for a in pe.atoms(fn, c.args[1], n, control=False) if not _junk(a)}
+    key_atoms |= {a for a in _whole_key_atoms(ctx, pe, fn, c.args[1], n) if not _junk(a)}
     # sibling agreement: the wrapped computation's own key must be dominated by this key
     need = set()
     for a in t2_key_atoms:
@@ -479,6 +522,48 @@ def rule_key_t1(ctx) -> None:
                   f"the cached propagation depends on `{v}` but the T1 cache key does not: changing it returns the result computed under the old value")
 
 
+def rule_key_keeps_consumed_order(ctx) -> None:
+    """a key part may canonicalise the order of an input (sorted / set) only when the computation does not consume that order.
+    The T1 propagation pushes its seeds in the order the mapping lists them; with the dedupe ring / the frontier cap that
+    order decides which seed is still recent (or kept) when the first edges are relaxed.  A key that names the seeds as a
+    SORTED tuple gives two seedings of the same node set one entry although their fresh computations differ."""
+    inner = ctx.func(T1 + ":t1_propagate._t1_one_graph")
+    cfg = ctx.cfg(inner)
+    rd = ctx.rd(inner)
+    gets = [(n, c) for n in cfg.nodes for c in node_calls(n) if call_tail(c) == "get" and src(c.func.value) == "cache" and len(c.args) == 1]
+    if not gets:
+        raise AnalysisError("anchor-vanished: T1 cache get")
+    gn, gc = gets[0]
+    sl = rd.slice([gc.args[0]], gn)
+    # inputs whose order the key drops: X in sorted(X...) / set(X) / frozenset(X) anywhere in the key's slice
+    dropped = {}
+    for x in sl.nodes():
+        if isinstance(x, ast.Call) and dotted(x.func) in ("sorted", "set", "frozenset") and x.args:
+            for y in ast.walk(x.args[0]):
+                if isinstance(y, ast.Name) and rd.is_local(y.id):
+                    dropped.setdefault(y.id, x)
+    # loops of the compute region that walk such an input as it is
+    region = cfg.reach([gn], include_start=False)
+    n_loops = 0
+    for h in [m for m in region if m.kind == "iter"]:
+        it = h.ast.iter
+        base = it.func.value if isinstance(it, ast.Call) and isinstance(it.func, ast.Attribute) and it.func.attr in ("items", "keys", "values") else it
+        if not isinstance(base, ast.Name):
+            continue
+        n_loops += 1
+        if base.id not in dropped:
+            continue
+        # order-insensitive bodies are fine: the body only accumulates commutatively (no push / ring / cap / break)
+        body_calls = {call_tail(c) for st in h.ast.body for c in ast.walk(st) if isinstance(c, ast.Call)}
+        consumes = bool(body_calls & {"heappush", "append", "add", "appendleft", "insert", "contains"}) or any(isinstance(y, (ast.Break,)) for st in h.ast.body for y in ast.walk(st))
+        ctx.check(not consumes, "C05.KEY", f"T1/key-keeps-the-order-of:{base.id}", inner.loc(dropped[base.id]), f"`{base.id}` is walked by an order-insensitive loop only",
+                  f"the key names `{base.id}` through `{src(dropped[base.id])[:40]}` (order dropped) while the computation walks `{src(it)}` as listed and pushes / de-duplicates in that order: two inputs that "
+                  "seed the same nodes in another order share an entry although, with the dedupe ring or the frontier cap on, a fresh computation differs")
+    ctx.floor("C05.KEY", "loops over named inputs in the T1 compute region", n_loops, 1)
+    if not dropped:
+        ctx.holds("C05.KEY", "T1/key-keeps-consumed-orders", inner.loc(gc), "no key part drops the order of an input")
+
+
 def _root_key_reads(ctx, fn: Func, exprs, roots: Set[str], depth: int = 1) -> Set[Tuple[str, str]]:
     out: Set[Tuple[str, str]] = set()
     for e in exprs:
@@ -623,9 +708,24 @@ def rule_ver(ctx) -> None:
         bumps = [n for n in cfg.nodes if any(call_tail(c) == "_bump_etag" for c in node_calls(n))]
         if not writes or not bumps:
             continue
-        partial = cfg.path(writes, lambda x: x is cfg.raise_, avoid=lambda x: x in bumps, include_start=False)
+        # exits through an exception AFTER a write has completed (the write's own exception edge means it did not happen)
+        done = [t for w in writes for t, l in w.succ if l != "exc"]
+        partial = cfg.path(done, lambda x: x is cfg.raise_, avoid=lambda x: x in bumps, include_start=True)
+        if partial is not None:
+            # a flag-gated bump on the way out (`finally: if edits: bump`): fine when every completed write has been counted
+            # before anything else can raise
+            for cnd in [x for x in partial if x.kind == "cond" and isinstance(x.ast, ast.Name)]:
+                tb = [t for t, l in cnd.succ if l == "T"]
+                incs_f = [m for m in cfg.nodes if m.kind == "stmt" and isinstance(m.ast, ast.AugAssign) and src(m.ast.target) == cnd.ast.id]
+                if tb and any(cfg.dominates(tb[0], b) for b in bumps) and incs_f \
+                        and cfg.path(done, lambda x: x is cnd, avoid=lambda x: x in incs_f, include_start=True) is None:
+                    partial = None
+                    break
+        ctx.check(partial is None, "C05.VER", f"{fn.qual}/no-partial-failure", fn.loc(partial[-2].ast) if partial and len(partial) > 1 and partial[-2].ast is not None else fn.loc(),
+                  "no exceptional exit after a completed graph write skips the etag re-derivation",
+                  "an exception raised after a graph write has completed (a later, malformed element of the batch) leaves the method without the etag being re-derived: the graph has changed, its etag has "
+                  "not, and the T1 cache keeps serving the propagation of the old graph to every caller that does not replay the batch element by element", ctx.path_witness(fn, partial))
         if partial is None:
-            ctx.holds("C05.VER", f"{fn.qual}/no-partial-failure", fn.loc(), "no exceptional exit after a graph write skips the etag re-derivation")
             continue
         # recognised-element branches: `d.get("op") == "<const>"` (or, without such dispatch, the loop body itself)
         ops = [n for n in cfg.nodes if n.kind == "cond" and isinstance(n.ast, ast.Compare) and isinstance(n.ast.ops[0], ast.Eq) and const_str(n.ast.comparators[0]) is not None and "op" in src(n.ast.left)]
@@ -659,6 +759,22 @@ def rule_ver(ctx) -> None:
     ctx.check(content, "C05.VER", f"{be.qual}/content-derived", be.loc(), "the etag hashes node labels/attrs and edge fields (incl. weights) of the whole graph",
               ("the etag is a hash of (len(nodes), len(edges)) only: re-weighting an edge keeps the etag" if len_only else
                "the etag is not derived from graph content (chained/counter only): two store instances with the same mutation history share etags although their graphs differ"))
+    # (b0) deriving the etag cannot fail on content the maps accept: a conversion that raises inside the hash (float() of a
+    #      weight that is no number) makes EVERY later edit of the graph land without the etag moving
+    from ..util import enclosing as _encl
+    convs = [x for x in walk_no_defs(be.node) if isinstance(x, ast.Call) and isinstance(x.func, ast.Name) and x.func.id in ("float", "int") and x.args and not isinstance(x.args[0], ast.Constant)]
+    for x in convs:
+        okc = False
+        for st, part in _encl(ctx.prog, be, x):
+            if isinstance(st, ast.Try) and part == "body":
+                caught = set()
+                for h in st.handlers:
+                    caught |= {"*"} if h.type is None else {src(e).split(".")[-1] for e in (h.type.elts if isinstance(h.type, ast.Tuple) else [h.type])}
+                if caught & {"*", "Exception", "BaseException"} or {"TypeError", "ValueError"} <= caught:
+                    okc = True
+        ctx.check(okc, "C05.VER", ctx.okey(f"{be.qual}/hash-is-total"), be.loc(x), f"`{src(x)}` inside the etag derivation is under a handler for TypeError / ValueError",
+                  f"`{src(x)}` can raise inside the etag derivation: one edge whose weight is no number wedges the etag - every later edit of that graph lands in the maps, raises out of the bump and "
+                  "leaves the etag where it was, so the T1 cache serves the old propagation from then on")
     # (b') the etag sees what the walkers see: T1 reads the adjacency lists csr() builds, and under relax_cap / queue budgets the
     #      order of those lists decides the result.  Either csr() puts them in a canonical order, or the etag hashes the edge map
     #      in the same (insertion) order - a sorted hash over an insertion-ordered walk gives equal etags to graphs that propagate
@@ -745,6 +861,28 @@ def rule_iso(ctx) -> None:
                   (f"`{src(addr)[:40]}` puts an object's address into the key: CPython gives the address of a dropped object to the next one, so in a warm process a new index (one without the "
                    "identity attribute: LanceIndex, any MemoryIndex implementation) inherits the cache entries of a dead one - another world's retrieval is served") if addr is not None else "")
     ctx.floor("C05.ISO", "cache keys spanning index objects", n_keys, 2)
+    # an index that carries no identity of its own gets one from the key helper: kept OUTSIDE the object.  A stamp written into
+    # the instance travels with copy.deepcopy / pickle (the foreign class has no copy hook that renews it): two diverging copies
+    # with equal version counters then share one cache identity.
+    helpers = set()
+    for tag, fn in (("T2", ctx.func(T2)), ("TURN", ctx.func(RUN_TURN))):
+        for x in walk_no_defs(fn.node):
+            if isinstance(x, ast.Call):
+                r = ctx.prog.callee(fn, x)
+                if r and r[0] == "func" and r[1] in ctx.prog.funcs and any(isinstance(y, ast.Attribute) and y.attr in ident or (isinstance(y, ast.Constant) and y.value in ident)
+                                                                       for y in ast.walk(ctx.prog.funcs[r[1]].node)):
+                    helpers.add(r[1])
+    ctx.floor("C05.ISO", "helpers that give an index its cache identity", len(helpers), 1)
+    for q in sorted(helpers):
+        h = ctx.prog.funcs[q]
+        ps = set(h.params)
+        stamp = next((x for x in walk_no_defs(h.node)
+                      if (isinstance(x, ast.Call) and dotted(x.func) == "setattr" and x.args and isinstance(x.args[0], ast.Name) and x.args[0].id in ps)
+                      or (isinstance(x, (ast.Assign, ast.AugAssign)) and any(isinstance(t, ast.Attribute) and isinstance(t.value, ast.Name) and t.value.id in ps
+                                                                                for t in (x.targets if isinstance(x, ast.Assign) else [x.target])))), None)
+        ctx.check(stamp is None, "C05.ISO", f"{q}/identity-not-stored-in-foreign-object", h.loc(stamp) if stamp is not None else h.loc(), "the identity handed to a foreign index is kept outside the object",
+                  (f"`{src(stamp)[:50]}` writes the identity into the index object: copy.deepcopy(state) / pickle copy the stamp along (only InMemoryIndex renews its identity in copies), so two forks of "
+                   "an engine state share (version, identity) once each has added as many episodes - the process-global T2 cache serves one fork's memories to the other") if stamp is not None else "")
 
 
 _EFMEMO: dict = {}
@@ -977,13 +1115,89 @@ def rule_entry_complete(ctx) -> None:
                   "cache on and cache off disagree on T1 counters although the key is right")
 
 
+def rule_hit_leaves_what_fresh_leaves(ctx) -> None:
+    """"a cache hit equals a fresh computation" also in what the computation leaves behind on its arguments: whatever the
+    fresh path of the stage writes into the turn context (or into objects reached from it) the hit path writes too.  A reused
+    ctx otherwise keeps, on a hit, what an EARLIER turn's computation left there (the snippets the reflection step falls back
+    to), and a configuration section completed in place by the fresh path differs after a hit."""
+    from ..effects import Effects
+    fn = ctx.func(T2)
+    cfg = ctx.cfg(fn)
+    hit_rets = [n for n in cfg.nodes if n.kind == "stmt" and isinstance(n.ast, ast.Return) and isinstance(n.ast.value, ast.Name)
+                and any(pol and t.replace(" ", "") == f"{n.ast.value.id}isnotNone" for t, pol in cfg.facts(n))]
+    if not hit_rets:
+        raise AnalysisError("anchor-vanished: `return <hit>` under `<hit> is not None` in t2_semantic")
+    hitname = hit_rets[0].ast.value.id
+    ef = Effects(ctx, depth=3)
+    pname = fn.params[0]
+    on_hit, on_fresh = {}, {}
+    for n in cfg.nodes:
+        if n.ast is None or n.kind not in ("stmt", "cond"):
+            continue
+        hitside = any(pol and t.replace(" ", "") == f"{hitname}isnotNone" for t, pol in cfg.facts(n))
+        found = []
+        for c in node_calls(n):
+            if dotted(c.func) == "setattr" and c.args and isinstance(c.args[0], ast.Name) and c.args[0].id == pname:
+                found.append((f"setattr({pname}, {src(c.args[1]) if len(c.args) > 1 else ''})", c))
+                continue
+            pos = [i for i, a in enumerate(c.args) if isinstance(a, ast.Name) and a.id == pname]
+            r = ctx.prog.callee(fn, c)
+            if not pos or not r or r[0] != "func" or r[1] not in ctx.prog.funcs:
+                continue
+            cal = ctx.prog.funcs[r[1]]
+            cps = [p_ for p_ in cal.params if p_ not in ("self", "cls")]
+            tgt = {f"param:{cps[i]}" for i in pos if i < len(cps)}
+            ws = [e for e in ef.of(cal) if e.kind in ("mutate", "setattr") and e.origin in tgt]
+            if ws:
+                found.append((f"{cal.name}: " + "; ".join(sorted({e.desc for e in ws}))[:120], c))
+        if isinstance(n.ast, (ast.Assign, ast.AugAssign)):
+            for t in (n.ast.targets if isinstance(n.ast, ast.Assign) else [n.ast.target]):
+                base = t
+                while isinstance(base, (ast.Subscript, ast.Attribute)):
+                    base = base.value
+                if isinstance(base, ast.Name) and base.id == pname and base is not t:
+                    found.append((f"store `{src(t)[:40]}`", n.ast))
+        for what, node in found:
+            (on_hit if hitside else on_fresh).setdefault(what, node)
+    ctx.floor("C05.ENTRY", "writes into the turn context on the fresh path of T2", len(on_fresh), 1)
+    missing = sorted(w for w in on_fresh if w not in on_hit)
+    ctx.check(not missing, "C05.ENTRY", f"{fn.qual}/hit-path-leaves-what-the-fresh-path-leaves", fn.loc(hit_rets[0].ast),
+              f"all {len(on_fresh)} writes of the fresh path into the turn context are made on the hit path as well",
+              (f"the fresh path writes into the turn context ({missing[0][:110]}{' ...' if len(missing) > 1 else ''}, {fn.loc(on_fresh[missing[0]])}) and the hit path does not: with a ctx reused "
+               "across turns a hit leaves there what an earlier turn's computation wrote - the reflection of a turn that retrieved nothing is fed the snippets of an earlier turn - or the caller's "
+               "configuration differs after a hit") if missing else "")
+    # the turn-level cache wraps the same stage: on its hit the orchestrator makes up for what the skipped stage call leaves on ctx
+    rt = ctx.func(RUN_TURN)
+    rcfg = ctx.cfg(rt)
+    wrote = {w.split(": ", 1)[0] for w in on_fresh if ": " in w}   # helpers through which the fresh path writes
+    hit_nodes = [n for n in rcfg.nodes if any(pol and t.strip() == "hit" for t, pol in rcfg.facts(n))]
+    if not hit_nodes:
+        raise AnalysisError("anchor-vanished: the `if hit:` branch of the turn-level T2 cache")
+    called = set()
+    for n in hit_nodes:
+        for c in node_calls(n):
+            called.add(call_tail(c))
+            if isinstance(c.func, ast.Name):
+                for x in walk_no_defs(rt.node):
+                    if isinstance(x, ast.ImportFrom):
+                        for a in x.names:
+                            if (a.asname or a.name) == c.func.id:
+                                called.add(a.name)
+    lacking = sorted(wrote - called)
+    ctx.check(not lacking, "C05.ENTRY", f"{rt.qual}/turn-level-hit-leaves-what-the-stage-leaves", rt.loc(hit_nodes[0].ast),
+              f"on a turn-level hit run_turn calls {sorted(wrote)} itself", f"on a turn-level hit the stage is not called and run_turn does not make up for `{lacking[0] if lacking else ''}`: "
+              "what the stage leaves on ctx besides its result stays as an earlier turn left it")
+
+
 def run(ctx) -> None:
+    rule_hit_leaves_what_fresh_leaves(ctx)
     rule_entry_complete(ctx)
     ka = rule_key_t2(ctx)
     rule_key_turn(ctx, ka)
     rule_store_versioned(ctx)
     rule_quality_digest(ctx)
     rule_key_t1(ctx)
+    rule_key_keeps_consumed_order(ctx)
     rule_key_t1_roots(ctx)
     rule_key_injective(ctx)
     rule_key_names_resource(ctx)
